@@ -10,12 +10,19 @@
    the same events on the queue in all runs.
    The writer half (module WriterLevel below, Proofs/WriterOrderP.v): the report is invariant under swapping adjacent
    independent events and under renaming / merging of thread identifiers.
-   What is NOT proved (partial): the composition of the two halves — that the N-thread stream and the 1-thread stream of one
-   project are related by such swaps and such a renaming; the check compares the N-thread and 1-thread reports on every run. *)
+   The linearization theorem (Proofs/LinearizeP.v) turns "invariant under swaps" into a statement about two runs: two
+   streams with the same events that order every pair of DEPENDENT events the same way give the same report — in
+   particular when every task emits its events in the same order in both runs (task half: the events of a task do not
+   depend on the schedule), a task's events come after those of the tasks it depends on (C07_suite_brackets: a task is only
+   taken after its transitive dependencies have finished) and dependent events come from the same task or from tasks ordered
+   by the graph (coverage, an executable check).
+   What is NOT proved (partial): the coverage hypothesis for the graphs of runner.build_tasks and the identification of the
+   model's per-task event lists with the writer's event type; the check compares the N-thread and 1-thread reports on
+   every run. *)
 From Coq Require Import List Arith Bool.
 Import ListNotations.
 From LCC Require Import Base.Util Model.Proj Model.Sched Model.Fixture Model.TaskSem Proofs.SchedP Proofs.DeterminismP.
-From LCC Require Model.Report Model.Events Model.Writer Proofs.WriterOrderP.
+From LCC Require Model.Report Model.Events Model.Writer Proofs.WriterOrderP Proofs.LinearizeP.
 
 Theorem C05_results_schedule_independent : forall g rk (W : wf g rk) (sem : nat -> mode -> tres) n1 n2 ms1 ms2 s1 s2,
   1 <= n1 -> 1 <= n2 -> quiet ms1 -> quiet ms2 ->
@@ -60,7 +67,7 @@ Proof. repeat split; try (eexists; split; vm_compute; reflexivity); vm_compute; 
    [aligned] : the open step of the emitting thread belongs to the result the event names (what C06/C07 give for a run).
    [keys_distinct] : sibling suites have distinct ranks and the tests of a suite distinct (rank, position) keys. *)
 Module WriterLevel.
-Import Report Events Writer WriterOrderP.
+Import Report Events Writer WriterOrderP LinearizeP.
 
 (* two adjacent independent events may be applied in either order: same writer state up to the insertion order of children *)
 Theorem C05_writer_independent_events_commute : forall w e1 e2 w1 w12,
@@ -89,4 +96,35 @@ Theorem C05_report_invariant_under_thread_merging : forall f s w, merge_ok f [] 
   exists w', apply_all init_wstate (map (rename f) s) = Ok w' /\ normalize w' = normalize w.
 Proof. exact aggregate_rename_merge. Qed.
 Print Assumptions C05_report_invariant_under_thread_merging.
+(* two runs: the same (tagged) events, every pair of dependent events in the same order => the same report.  No sequence of
+   swaps has to be exhibited (Mazurkiewicz linearization lemma, LinearizeP.linearize). *)
+Theorem C05_report_determined_by_order_of_dependent_events : forall (s1 s2 : list (nat * event)) w1,
+  NoDup (map fst s1) -> Permutation.Permutation s1 s2 ->
+  (forall x y, indep (snd x) (snd y) = false -> before x y s1 -> before x y s2) ->
+  apply_all init_wstate (map snd s1) = Ok w1 -> all_aligned init_wstate (map snd s1) -> keys_distinct w1 ->
+  aggregate (map snd s1) = aggregate (map snd s2).
+Proof. exact aggregate_linearizations. Qed.
+Print Assumptions C05_report_determined_by_order_of_dependent_events.
+
+(* ... in the form the scheduler theorems feed: task_of = the task that emitted an event, ordered t t' = t' transitively
+   depends on t.  H1 each task's own events keep their order; H2 in both runs a task's events come after the events of the
+   tasks it depends on; H3 dependent events come from the same task or from ordered tasks. *)
+Theorem C05_report_same_for_all_task_interleavings :
+  forall (task_of : nat -> nat) (ordered : nat -> nat -> Prop) (s1 s2 : list (nat * event)) w1,
+  NoDup (map fst s1) -> Permutation.Permutation s1 s2 ->
+  (forall x y, task_of (fst x) = task_of (fst y) -> before x y s1 -> before x y s2) ->
+  (forall x y, In x s1 -> In y s1 -> ordered (task_of (fst x)) (task_of (fst y)) -> before x y s1) ->
+  (forall x y, In x s2 -> In y s2 -> ordered (task_of (fst x)) (task_of (fst y)) -> before x y s2) ->
+  (forall x y, In x s1 -> In y s1 -> indep (snd x) (snd y) = false -> x <> y ->
+     task_of (fst x) = task_of (fst y) \/ ordered (task_of (fst x)) (task_of (fst y)) \/
+     ordered (task_of (fst y)) (task_of (fst x))) ->
+  apply_all init_wstate (map snd s1) = Ok w1 -> all_aligned init_wstate (map snd s1) -> keys_distinct w1 ->
+  aggregate (map snd s1) = aggregate (map snd s2).
+Proof. exact aggregate_task_linearizations. Qed.
+Print Assumptions C05_report_same_for_all_task_interleavings.
+
+(* non-vacuity: two different concrete streams (sequential / overlapping runs of two tests) meeting every hypothesis *)
+Example C05_linearization_witness : map snd LinEx.ts1 <> map snd LinEx.ts2 /\
+  aggregate (map snd LinEx.ts1) = aggregate (map snd LinEx.ts2).
+Proof. split; [exact LinEx.ts_differ | exact LinEx.ts_same_report]. Qed.
 End WriterLevel.
